@@ -90,10 +90,13 @@ def run(index, rep, tier):
     binds = [n for l in loops for n in ast.walk(l) if isinstance(n, ast.Assign) and norm(n.targets[0]).endswith("._taxon_namespace")]
     rep.check(bool(binds) and all(norm(b.value) == "self.taxon_namespace" for b in binds), "R11.2", tlr.qualname, "each tree rebound", fn_where(tlr), "each tree is bound to the list's namespace before reconstruction", "TreeList.reconstruct_taxon_namespace no longer binds each tree to the list's namespace")
     un = index.function(DS + ".unify_taxon_namespaces")
-    memos = [n for n in walk_no_nested(un.node) if isinstance(n, ast.Assign) and norm(n.targets[0]) == "taxon_mapping_memo"]
     migs = [c for c in calls_in(un.node) if call_name(c) == "migrate_taxon_namespace"]
+    memo_names = {norm(get_kwarg(c, "taxon_mapping_memo") or ast.Constant(None)) for c in migs}
+    ns_names = {norm(get_kwarg(c, "taxon_namespace") or ast.Constant(None)) for c in migs}
+    mname = list(memo_names)[0] if len(memo_names) == 1 else None
+    memos = [n for n in walk_no_nested(un.node) if isinstance(n, ast.Assign) and norm(n.targets[0]) == mname]
     in_loop = any(any(m is x for x in ast.walk(l)) for m in memos for l in walk_no_nested(un.node) if isinstance(l, ast.For))
-    ok = len(memos) == 1 and not in_loop and len(migs) >= 2 and all(norm(get_kwarg(c, "taxon_mapping_memo") or ast.Constant(None)) == "taxon_mapping_memo" and norm(get_kwarg(c, "taxon_namespace") or ast.Constant(None)) == "taxon_namespace" for c in migs)
+    ok = len(memos) == 1 and not in_loop and len(migs) >= 2 and mname not in (None, "None") and len(ns_names) == 1 and "None" not in ns_names
     rep.check(ok, "R11.2", un.qualname, "one memo for all components", fn_where(un), "DataSet.unify passes one memo and one namespace to every tree list and matrix", "DataSet.unify_taxon_namespaces does not pass one shared memo/namespace to all components")
     for q in (TREE + ".reconstruct_taxon_namespace", CM + ".reconstruct_taxon_namespace"):
         f = index.function(q)
@@ -167,7 +170,9 @@ def run(index, rep, tier):
         rep.check(ok and bool(attached), "R11.4", f.qualname, "attached namespace overrides the keyword", fn_where(f), "%s binds the new component to the attached namespace or raises on conflict" % name,
                   "%s can create a component over a namespace other than the data set's attached one: with a namespace attached every component must be bound to it" % f.qualname)
     rd = index.function("dendropy.dataio.ioservice.DataReader.read_dataset")
-    lam = [n for n in walk_no_nested(rd.node) if isinstance(n, ast.Assign) and norm(n.targets[0]) == "taxon_namespace_factory" and isinstance(n.value, ast.Lambda)]
+    rcall = [c for c in calls_in(rd.node) if call_name(c) == "_read"]
+    fvar = norm(get_kwarg(rcall[0], "taxon_namespace_factory")) if rcall and get_kwarg(rcall[0], "taxon_namespace_factory") is not None else "taxon_namespace_factory"
+    lam = [n for n in walk_no_nested(rd.node) if isinstance(n, ast.Assign) and norm(n.targets[0]) == fvar and isinstance(n.value, ast.Lambda)]
     ok = any(norm(l.value.body) == "dataset.attached_taxon_namespace" for l in lam) and any(norm(l.value.body) == "taxon_namespace" for l in lam)
     rep.check(ok, "R11.4", rd.qualname, "factory from attached namespace", fn_where(rd), "read_dataset hands the reader the attached (or given) namespace as its only namespace factory", "read_dataset no longer builds its namespace factory from the attached/given namespace")
     for name in ("add_tree_list", "add_char_matrix"):
